@@ -267,6 +267,24 @@ func groupBootstrap(rng *hx.Rng, iters int) (ops map[string]int) {
 			if rng.Chance(50) {
 				add("dial", func() { f.dial(host); f.dial(host) })
 			}
+			if rng.Chance(30) {
+				// a second Sync/Async on the same listener is rejected ("duplicate call") while the first one accepts
+				delay := time.Duration(rng.Intn(100)) * time.Microsecond
+				add("Async-again", func() {
+					var ln netty.Listener
+					for spin := 0; spin < 20000 && ln == nil; spin++ {
+						lmu.Lock()
+						ln = ls[l]
+						lmu.Unlock()
+					}
+					if ln != nil {
+						time.Sleep(delay)
+						done.Add(1)
+						ln.Async(func(error) { done.Done() })
+						f.dial(host)
+					}
+				})
+			}
 			if rng.Chance(40) {
 				add("Listener.Close", func() {
 					// as soon as the listener exists (the accept loop is starting right now)
@@ -283,16 +301,19 @@ func groupBootstrap(rng *hx.Rng, iters int) (ops map[string]int) {
 			}
 		}
 		if rng.Chance(60) {
+			alsoWrite := rng.Bool()
 			add("Connect", func() {
-				if ch, err := bs.Connect("mock://c:1"); err == nil && rng.Bool() {
+				if ch, err := bs.Connect("mock://c:1"); err == nil && alsoWrite {
 					ch.Write([]byte("hi"))
 				}
 			})
 		}
+		shutDelay := time.Duration(0)
+		if rng.Chance(50) {
+			shutDelay = time.Duration(rng.Intn(200)) * time.Microsecond
+		}
 		add("Shutdown", func() {
-			if rng.Chance(50) {
-				time.Sleep(time.Duration(rng.Intn(200)) * time.Microsecond)
-			}
+			time.Sleep(shutDelay)
 			bs.Shutdown()
 		})
 		sort.Strings(names)
@@ -353,7 +374,8 @@ func groupIdle(rng *hx.Rng, iters int) (ops map[string]int) {
 			case 2:
 				add("idle-then-close", func() { time.Sleep(idle * 3); ch.Close(nil) })
 			case 3:
-				add("close", func() { time.Sleep(time.Duration(rng.Intn(int(idle)))); ch.Close(errors.New("x")) })
+				closeDelay := time.Duration(rng.Intn(int(idle)))
+				add("close", func() { time.Sleep(closeDelay); ch.Close(errors.New("x")) })
 			}
 		}
 		sort.Strings(names)
